@@ -96,16 +96,16 @@ func Specs() map[string]*PropSpec {
 		Stubs:       []string{"c12Bank", "zzverif.MemStore"},
 	}
 	m["C08"] = &PropSpec{
-		ID: "C08", Pkgs: []string{"./x/vesting/types", "./x/staking/keeper", "./x/vesting/keeper"},
+		ID: "C08", Pkgs: []string{"./x/vesting/types", "./x/staking/keeper", "./x/vesting/keeper", "./app/ante/evm"},
 		Quick: []Inst{vt("VerifC08_LockedCoins", "nl", "2", "nv", "2"), vt("VerifC08_LockedCoins", "nl", "1", "nv", "2", "denoms", "2"), vt("VerifC09_Clawback", "nl", "2", "nv", "2"),
-			{Pkg: "x/staking/keeper", Fn: "VerifC08_Delegate", Params: pm("nv", "2")}, vk("VerifC09_MergeGrant", "lock", "2", "glock", "2"), vk("VerifC09_ClawbackMsg")},
-		Thorough: []Inst{vt("VerifC08_LockedCoins", "nl", "3", "nv", "3"), vt("VerifC08_LockedCoins", "nl", "2", "nv", "2", "denoms", "2"), vt("VerifC09_Clawback", "nl", "3", "nv", "3"),
+			{Pkg: "x/staking/keeper", Fn: "VerifC08_Delegate", Params: pm("nv", "2")}, vk("VerifC09_MergeGrant", "lock", "2", "glock", "2"), vk("VerifC09_ClawbackMsg"), {Pkg: "app/ante/evm", Fn: "VerifC08_EthAnte", Params: pm("msgs", "2")}},
+		Thorough: []Inst{{Pkg: "app/ante/evm", Fn: "VerifC08_EthAnte", Params: pm("msgs", "3")}, vt("VerifC08_LockedCoins", "nl", "3", "nv", "3"), vt("VerifC08_LockedCoins", "nl", "2", "nv", "2", "denoms", "2"), vt("VerifC09_Clawback", "nl", "3", "nv", "3"),
 			{Pkg: "x/staking/keeper", Fn: "VerifC08_Delegate", Params: pm("nv", "4")}},
 		Bounds: map[string]string{
-			"quick":    "LockedCoins and post-clawback locking for accounts with <= 2 lockup and <= 2 vesting periods (1-2 denoms), arbitrary tracked delegations, arbitrary block time; delegation wrapper: <= 2 vesting periods, arbitrary balance/amount/time, Delegate and CreateValidator; the locked amount after merging a grant (real addGrant) and after the Clawback message, at every instant",
+			"quick":    "LockedCoins and post-clawback locking for accounts with <= 2 lockup and <= 2 vesting periods (1-2 denoms), arbitrary tracked delegations, arbitrary block time; delegation wrapper: <= 2 vesting periods, arbitrary balance/amount/time, Delegate and CreateValidator; the locked amount after merging a grant (real addGrant) and after the Clawback message, at every instant; the eth-route vesting pre-check over <= 2 messages of one clawback account (2+2 period schedule, tracked delegation, any balance and values): accepted <=> total value <= balance - locked (two-sided)",
 			"thorough": "<= 3 + 3 periods; delegation wrapper <= 4 vesting periods",
 		},
-		Outside: []string{"that the SDK bank keeper refuses debits beyond balance - LockedCoins on every path (SDK code; the property reduces to LockedCoins being right, which is what is decided)", "the eth-route ante pre-check and the EVM debit path (planned with the x/evm harnesses)", "delegation through grants / the staking precompile (they end in the same message server, checked here)"},
+		Outside: []string{"that the SDK bank keeper refuses debits beyond balance - LockedCoins on every path (SDK code; the property reduces to LockedCoins being right, which is what is decided)", "the EVM debit path itself (x/evm SetBalance -> bank SendCoinsFromAccountToModule: SDK bank code)", "messages of several different vesting accounts in one transaction", "delegation through grants / the staking precompile (they end in the same message server, checked here)"},
 		Assumptions: []string{"staking BondDenom stubbed to aISLM", "account/bank keepers are harness stubs returning the symbolic account and balance"},
 		Stubs:       []string{"c08AK", "c08BK", "c08Inner (records what reaches the SDK staking server)"},
 	}
